@@ -493,8 +493,8 @@ Lemma oinv_store s F s' F' q m (src : owner) :
                (forall fam, fam <> fst q -> sl_memos sl' fam = sl_memos sl fam))) ->
   (forall q' fr', In (q', fr') F' -> In (q', fr') F) -> NoDup (flocs F') ->
   (forall l', l' <> loc_of q -> active_loc F l' -> active_loc F' l') ->
-  NoDup (map fst (mids m)) ->
-  (forall h, In h (mids m) -> exists ids0, owner_ids s F src ids0 /\ In h ids0) ->
+  (~ active_loc F' (loc_of q) -> NoDup (map fst (mids m))) ->
+  (~ active_loc F' (loc_of q) -> forall h, In h (mids m) -> exists ids0, owner_ids s F src ids0 /\ In h ids0) ->
   (src = OwM (loc_of q) \/ forall ids, ~ owner_ids s' F' src ids) ->
   OInv s' F'.
 Proof.
@@ -548,7 +548,7 @@ Proof.
       assert (Ho : owner_ids s F (OwF q') (frame_ids fr')) by (exists fr'; auto).
       split; [exact (oi_nodup _ _ _ I _ _ Ho)|]. intros h Hh. exists (frame_ids fr'). auto.
     - intros (Hna & m' & Hm' & ->). unfold loc_eqb. destruct (key_eqb_spec l (loc_of q)) as [-> | Hne].
-      + rewrite (Hpeekq Hna m' Hm'). split; [exact Hmnd | exact Hsrc].
+      + rewrite (Hpeekq Hna m' Hm'). split; [exact (Hmnd Hna) | exact (Hsrc Hna)].
       + rewrite (Hpeek l Hne) in Hm'.
         assert (Ho : owner_ids s F (OwM l) (mids m')).
         { split; [|exists m'; auto]. intros Ha. exact (Hna (Hact l Hne Ha)). }
